@@ -511,6 +511,13 @@ def main(chk: Check, replay: dict | None = None) -> int:
             return 1
         return 0
     chk.prove()
+    chk.assumptions = [
+        "C18_partial / C18_partial_bytes: int() maps every non-empty ASCII digit string to its value (section hypothesis; "
+        "checked against CPython's int() through the per-case tables)",
+        "all theorems: the stream is inside the model's domain when utf8_decode <> None (well-formed UTF-8, possibly "
+        "truncated inside the last character); json.loads and int() are arbitrary functions",
+        "identity Content-Encoding and default utf-8 charset (how the real helpers are driven)",
+    ]
     inputs = build_inputs(chk)
     results = run_all(inputs)
     cases: list[dict] = []
